@@ -19,6 +19,7 @@ mod qa;
 mod c15b;
 mod lpg;
 mod ops;
+mod ops2;
 mod opt;
 mod pers;
 mod q;
@@ -59,6 +60,7 @@ fn main() {
                 "tx" => tx::generate(seed, cases, &mut out),
                 "rdf" => rdf::generate(seed, cases, &mut out),
                 "ops" => ops::generate(seed, cases, &mut out),
+                "ops2" => ops2::generate(seed, cases, &mut out),
                 "val" => val::generate(seed, cases, &mut out),
                 "exec" => exec::generate(seed, cases, &mut out),
                 "lpg" => lpg::generate(seed, cases, &mut out),
@@ -146,6 +148,7 @@ fn main() {
                     Some("rdf") => rdf::run(&mut rdfst, &toks[1..]),
                     Some("wal") => wal::run(&toks[1..]),
                     Some("ops") => ops::run(&toks[1..]),
+                    Some("ops2") => ops2::run(&toks[1..]),
                     Some("val") => val::run(&toks[1..]),
                     Some("exec") => exec::run(&toks[1..]),
                     Some("lpg") => lpg::run(&mut lpgst, &toks[1..]),
